@@ -1064,6 +1064,55 @@ struct Kinds {
   services: BTreeMap<String, VK>,
 }
 
+/// Names of built-in functions (`Bif::from_str`, from the regenerated table through the driver) that knowledge
+/// models and decision services are named like now and then: a required knowledge model / service is bound under its
+/// variable's name whatever that name is. Not used: `not` (a keyword) and the names the lexer hands out as date/time
+/// literal names.
+static BIF_POOL: std::sync::OnceLock<Vec<String>> = std::sync::OnceLock::new();
+
+fn bif_pool() -> &'static [String] {
+  BIF_POOL.get().map(|v| v.as_slice()).unwrap_or(&[])
+}
+
+fn set_bif_pool(model: &mut Model) {
+  if BIF_POOL.get().is_some() {
+    return;
+  }
+  let unused = ["not", "date", "time", "duration", "date and time", "years and months duration"];
+  let names: Vec<String> = Sexp::parse(&model.ask("(c10 bifnames)"))
+    .and_then(|x| {
+      x.as_list().map(|l| {
+        l.iter()
+          .filter_map(|n| {
+            let cs = n.as_list()?;
+            let mut t = String::new();
+            for c in cs.iter().skip(1) {
+              t.push(char::from_u32(c.as_atom()?.parse::<u32>().ok()?)?);
+            }
+            Some(t)
+          })
+          .filter(|n| !unused.contains(&n.as_str()))
+          .collect()
+      })
+    })
+    .unwrap_or_default();
+  let _ = BIF_POOL.set(names);
+}
+
+/// A built-in function's name that no variable of the graph has yet.
+fn bif_var(rng: &mut Rng, g: &Graph) -> Option<String> {
+  let pool = bif_pool();
+  if pool.is_empty() {
+    return None;
+  }
+  let n = rng.pick(pool).clone();
+  if g.var_names().contains(&n) || g.inputs.iter().any(|i| i.name == n) {
+    None
+  } else {
+    Some(n)
+  }
+}
+
 pub fn gen_graph(rng: &mut Rng) -> Graph {
   let mut g = Graph::default();
   let mut kinds = Kinds { decisions: BTreeMap::new(), bkms: BTreeMap::new(), services: BTreeMap::new() };
@@ -1235,6 +1284,8 @@ fn gen_bkm(gg: &mut GraphGen, g: &mut Graph, kinds: &mut Kinds, node: usize) {
   let (logic, k) = if !params.is_empty() && gg.rng.chance(1, 4) { gg.table(&env, true) } else { gg.logic(&env, true) };
   let var = match gg.rng.below(12) {
     0 if !g.inputs.is_empty() => gg.rng.pick(&g.inputs).name.clone(),
+    // named like a built-in function
+    1 | 2 | 3 => bif_var(gg.rng, g).unwrap_or_else(|| format!("f{}", node)),
     _ => format!("f{}", node),
   };
   let ty = ty_of_kind(&k, gg.rng);
@@ -1260,7 +1311,8 @@ fn gen_service(gg: &mut GraphGen, g: &mut Graph, kinds: &mut Kinds, node: usize)
   if gg.rng.chance(1, 25) {
     output.push("_missing".into());
   }
-  let var = format!("s{}", node);
+  // now and then named like a built-in function
+  let var = if gg.rng.chance(1, 4) { bif_var(gg.rng, g).unwrap_or_else(|| format!("s{}", node)) } else { format!("s{}", node) };
   let ty = if gg.rng.chance(1, 6) { Ty::Number } else { Ty::Untyped };
   // formal parameters: input data, then input decisions
   let mut ps = vec![];
@@ -1381,6 +1433,49 @@ pub fn corpus() -> Vec<(&'static str, Graph)> {
       ],
       bkms: vec![bkm("_f", "F", Ty::Untyped, &[("a", Ty::Number), ("b", Ty::Number)], &[], Logic::Ctx(vec![(Some("s".into()), lit("a + b")), (None, lit("s * 2"))]))],
       services: vec![],
+    },
+  ));
+  // knowledge models named like built-in functions (one word, several words): the name denotes the required knowledge
+  // model wherever it is invoked — positionally and by name from a literal expression, from a context entry, by a boxed
+  // invocation and by a boxed function definition with bindings
+  v.push((
+    "bif-named-knowledge-model",
+    Graph {
+      inputs: vec![inp("_x", "x", Ty::Number)],
+      decisions: vec![
+        dec("_p", "P", Ty::Untyped, &["_x"], &[], &["_max"], lit("max(2, 5) + x")),
+        dec("_n", "N", Ty::Untyped, &["_x"], &[], &["_max"], lit("max(b: 5, a: x)")),
+        dec("_b", "B", Ty::Untyped, &["_x"], &[], &["_max"], Logic::Inv(Box::new(lit("max")), vec![("a".into(), lit("x")), ("b".into(), lit("1"))], false)),
+        dec("_b2", "B2", Ty::Untyped, &["_x"], &[], &["_max"], Logic::Inv(Box::new(lit("max")), vec![("a".into(), lit("x + 1")), ("b".into(), lit("2"))], true)),
+        dec("_c", "C", Ty::Untyped, &["_x"], &[], &["_max", "_cnt"], Logic::Ctx(vec![(Some("u".into()), lit("max(1, x)")), (Some("w".into()), lit("count(u, 2)")), (None, lit("[u, w, max(count(1, 1), 3)]"))])),
+        dec("_l", "L", Ty::Untyped, &["_x"], &[], &["_len", "_cnt"], lit("string length(x) + count(x, 1)")),
+        dec("_m", "M", Ty::Number, &["_x"], &[], &["_min"], lit("min(x) + min(7)")),
+        dec("_z", "Z", Ty::Untyped, &["_x"], &[], &["_min"], Logic::Inv(Box::new(lit("min")), vec![("v".into(), lit("x"))], false)),
+      ],
+      bkms: vec![
+        bkm("_max", "max", Ty::Untyped, &[("a", Ty::Number), ("b", Ty::Number)], &[], lit("a * 10 + b")),
+        bkm("_cnt", "count", Ty::Untyped, &[("l", Ty::Untyped), ("m", Ty::Untyped)], &[], lit("l * 100 + m")),
+        bkm("_len", "string length", Ty::Number, &[("s", Ty::Number)], &[], lit("s + 1000")),
+        bkm("_min", "min", Ty::Untyped, &[("v", Ty::Number)], &["_max"], lit("max(v, v)")),
+      ],
+      services: vec![],
+    },
+  ));
+  // decision services named like built-in functions, invoked positionally, by name and by a boxed invocation
+  v.push((
+    "bif-named-decision-service",
+    Graph {
+      inputs: vec![inp("_x", "x", Ty::Number), inp("_y", "y", Ty::Number)],
+      decisions: vec![
+        dec("_g", "G", Ty::Untyped, &["_x"], &[], &[], lit("x + 1")),
+        dec("_h", "H", Ty::Untyped, &["_x"], &[], &[], lit("x * 2")),
+        dec("_t", "T", Ty::Untyped, &["_y"], &[], &["_s"], lit("sum(3) + y")),
+        dec("_t2", "T2", Ty::Untyped, &["_y"], &[], &["_s"], lit("sum(x: y + 4)")),
+        dec("_t3", "T3", Ty::Untyped, &["_y"], &[], &["_s"], Logic::Inv(Box::new(lit("sum")), vec![("x".into(), lit("y + 1"))], false)),
+        dec("_t4", "T4", Ty::Untyped, &["_y"], &[], &["_s", "_s2"], Logic::Ctx(vec![(Some("u".into()), lit("sum(y)")), (None, lit("[u, list contains(u).G, list contains(x: 2).H, sum(sum(1))]"))])),
+      ],
+      bkms: vec![],
+      services: vec![svc("_s", "sum", Ty::Untyped, &["_x"], &[], &[], &["_g"]), svc("_s2", "list contains", Ty::Untyped, &["_x"], &[], &[], &["_g", "_h"])],
     },
   ));
   // F14: B = A + 1, A = 1
@@ -1893,6 +1988,8 @@ struct Pending {
   base: Option<usize>,
   var_clash: bool,
   bkm_svc: bool,
+  /// a knowledge model or a decision service of the graph is named like a built-in function
+  bif_named: bool,
   nontrivial: bool,
 }
 
@@ -1931,6 +2028,10 @@ pub fn run_graphs(cfg: &Cfg, rep: &mut Report, n_graphs: usize, with_cyclic: boo
   let mut rng = Rng::new(cfg.seed);
   let ff = 10;
   let mut model = Model::start(&cfg.driver);
+  set_bif_pool(&mut model);
+  if bif_pool().len() < 20 {
+    rep.disagree(Kind::ImplVsModel, "bif-named", "the table of built-in function names is unreadable", "(c10 bifnames)", &format!("{:?}", bif_pool()), "the names Bif::from_str accepts");
+  }
   let mut graphs: Vec<(String, Graph)> = corpus().into_iter().filter(|(n, _)| n.starts_with(only)).map(|(n, g)| (n.to_string(), g)).collect();
   for k in 0..n_graphs {
     graphs.push((format!("random-{}", k), gen_graph(&mut rng)));
@@ -2134,6 +2235,7 @@ pub fn run_graphs(cfg: &Cfg, rep: &mut Report, n_graphs: usize, with_cyclic: boo
             base: if variant == "base" { None } else { Some(base_ix) },
             var_clash: entries.iter().any(|(n, _)| var_names.contains(n)) || (!g.services.is_empty() && g.inputs.iter().any(|i| var_names.contains(&i.name))),
             bkm_svc: g.bkm_requires_service(),
+            bif_named: g.bkms.iter().map(|b| &b.var).chain(g.services.iter().map(|x| &x.var)).any(|v| bif_pool().contains(v)),
             nontrivial: !closure.is_empty() || gf > 3,
           });
         }
@@ -2231,6 +2333,8 @@ pub fn run_graphs(cfg: &Cfg, rep: &mut Report, n_graphs: usize, with_cyclic: boo
           "an input entry named like the variable of a required decision / knowledge model / decision service replaces its value (overwrite by input data)"
         } else if p.bkm_svc {
           "a decision service required by a knowledge model is evaluated on the input data instead of being bound as a function"
+        } else if p.bif_named {
+          "the value of the invocable differs from the specification (a knowledge model or decision service of the graph is named like a built-in function)"
         } else {
           "the value of the invocable differs from the specification"
         };
